@@ -231,6 +231,32 @@ def check(run):
                        'pairs are drawn within one category (pose/pose, vertex/vertex, edge/edge, graph/graph)']
 
 
+def snap(obj):
+    """Bytes of every number an object holds (poses, measurements, information, offsets, the poses of attached vertices): a comparison is a
+    pure question -- it must not write into either operand."""
+    out = []
+
+    def add(a):
+        if a is not None:
+            out.append(np.asarray(a, dtype=float).tobytes())
+    if isinstance(obj, Graph):
+        for v in obj._vertices:
+            add(v.pose)
+        for e in obj._edges:
+            out.append(snap(e))
+    elif isinstance(obj, Vertex):
+        add(obj.pose)
+    elif hasattr(obj, 'information'):
+        add(obj.information)
+        add(obj.estimate)
+        add(getattr(obj, 'offset', None))
+        for v in (obj.vertices or []):
+            add(v.pose)
+    else:
+        add(obj)
+    return b'|'.join(o if isinstance(o, bytes) else bytes(o) for o in out)
+
+
 def _one(run, m, dirn, expected):
     cls = tuple(m['cls'])
     key = dict(cat=cls[0], kind=cls[1], mut=m['mut'], part=m['part'], magnitude=MAG[0])
@@ -252,6 +278,7 @@ def _one(run, m, dirn, expected):
             except Exception:  # noqa
                 pass
         run.notes['compared_after_evaluation'] = run.notes.get('compared_after_evaluation', 0) + 1
+    before = (snap(x), snap(y))
     try:
         from ..core import library_debug_logging
         with library_debug_logging(run.replayed % 3 == 0):          # (every third comparison with the library's loggers at DEBUG level)
@@ -260,6 +287,9 @@ def _one(run, m, dirn, expected):
         run.violation(dict(key, outcome='raised'), 'equals raised %r | case %r direction %s' % (ex, m, dirn), dict(case=m, direction=dirn))
         return
     got = bool(got)
+    if (snap(x), snap(y)) != before:
+        run.violation(dict(key, outcome='operand-modified'), 'equals changed one of the compared objects | case %r direction %s' % (m, dirn), dict(case=m, direction=dirn))
+        return
     if expected == 'either':
         return
     if got != (expected == 'T'):
